@@ -8,30 +8,38 @@ namespace Bridge.C11a
 /-- creating both from the same contract and the true hand establishes the relation -/
 theorem obs_rel_init (c : Contract) (hands : Seat → List Card) (me : Seat) (w : WithHands) (o : Observed)
     (hw : WithHands.init c hands = some w) (ho : Observed.init c me (hands me) = some o) : ObsRel w o := by
-  sorry
+  exact (finv_init hw ho).1.rel
 
 /-- both constructors accept / reject the same contracts -/
 theorem init_agree (c : Contract) (hands : Seat → List Card) (me : Seat) :
     (WithHands.init c hands).isSome = (Observed.init c me (hands me)).isSome := by
-  sorry
+  simp [WithHands.init, Observed.init]
 
 /-- supplying dummy's true current hand keeps the relation -/
 theorem obs_rel_set_dummy (w : WithHands) (o : Observed) (h : ObsRel w o) :
     ObsRel w (o.setDummy (w.hands w.base.dummy)) := by
-  sorry
+  exact ⟨h.base, h.hand, fun dh hdh => by simp [Observed.setDummy] at hdh; exact hdh.symm⟩
 
 /-- **Simulation.** Whatever the table manager accepts, the observer accepts too and they stay related —
-provided dummy's hand has been supplied before dummy (a seat other than the observer) plays -/
+provided dummy's hand has been supplied before dummy (a seat other than the observer) plays (`hd`).
+`hme`: an observer sitting dummy holds no separate copy of dummy's hand (its own `hand` is that hand); the
+protocol guarantees this — `Client.playing_phase` only calls `set_dummy_hand` when `dummy is not self.player`.
+Without `hme` the statement is false: `Observed.play` would update `hand` but leave `dummyHand` stale. -/
 theorem observer_simulates (w w' : WithHands) (o : Observed) (c : Card) (p : Seat)
     (hr : ObsRel w o) (hw : w.play c p = .ok w')
-    (hd : p = w.base.dummy → p ≠ o.me → o.dummyHand ≠ none) :
+    (hd : p = w.base.dummy → p ≠ o.me → o.dummyHand ≠ none)
+    (hme : o.me = w.base.dummy → o.dummyHand = none) :
     ∃ o', o.play c p = .ok o' ∧ ObsRel w' o' := by
-  sorry
+  obtain ⟨o', h1, h2, _⟩ := observer_simulates_strong w w' o c p hr hw hd hme
+  exact ⟨o', h1, h2⟩
 
 /-- once supplied, dummy's hand stays known -/
 theorem dummy_stays_known (o o' : Observed) (c : Card) (p : Seat) (h : o.play c p = .ok o')
     (hk : o.dummyHand ≠ none) : o'.dummyHand ≠ none := by
-  sorry
+  obtain ⟨_, ⟨_, _, rfl⟩ | ⟨_, _, dh, _, _, rfl⟩ | ⟨_, _, rfl⟩⟩ := observed_play_ok o o' c p h
+  · exact hk
+  · simp
+  · exact hk
 
 /-- related states agree on every public field: contract data, declarer, dummy, turn, trick number, leaders,
 trick history and trick counts (they are the same `PState`) -/
@@ -40,10 +48,11 @@ theorem related_agree (w : WithHands) (o : Observed) (h : ObsRel w o) :
     o.base.active = w.base.active ∧ o.base.leader = w.base.leader ∧ o.base.trickNum = w.base.trickNum ∧
     o.base.history = w.base.history ∧ o.base.takenNS = w.base.takenNS ∧ o.base.takenEW = w.base.takenEW ∧
     o.base.trick = w.base.trick ∧ o.base.used = w.base.used := by
-  sorry
+  rw [h.base]; simp
 
-/-- the protocol's feed: dummy's hand is supplied right after the opening lead.  Then every play the table
-manager accepts is accepted by the observer, for whole sequences. -/
+/-- the protocol's feed: dummy's hand is supplied right after the opening lead, to every observer that does not
+itself sit dummy (`Client.playing_phase`: `set_dummy_hand` only when `dummy is not self.player`).  Then every
+play the table manager accepts is accepted by the observer, for whole sequences. -/
 def feed (w : WithHands) (o : Observed) : List (Card × Seat) → Option (WithHands × Observed)
   | [] => some (w, o)
   | (c, p) :: ops =>
@@ -53,14 +62,59 @@ def feed (w : WithHands) (o : Observed) : List (Card × Seat) → Option (WithHa
       match o.play c p with
       | .error _ => none                -- the observer rejected an accepted play
       | .ok o' =>
-        let o'' := if w.base.used = [] then o'.setDummy (w'.hands w'.base.dummy) else o'
+        let o'' := if w.base.used = [] ∧ o'.me ≠ w'.base.dummy then o'.setDummy (w'.hands w'.base.dummy) else o'
         feed w' o'' ops
 
+/-- the workhorse: the feed invariant `FInv` (Lemmas/Play.lean) is maintained along any sequence of offers -/
+theorem feed_invariant : ∀ (ops : List (Card × Seat)) (w : WithHands) (o : Observed), FInv w o →
+    ∃ w' o', feed w o ops = some (w', o') ∧ FInv w' o' ∧ w' = runFull w ops ∧ o'.me = o.me
+  | [], w, o, hi => ⟨w, o, rfl, hi, rfl, rfl⟩
+  | (c, p) :: ops, w, o, hi => by
+    unfold feed runFull
+    cases hw : w.play c p with
+    | error e => exact feed_invariant ops w o hi
+    | ok w1 =>
+      obtain ⟨o1, hplay, hi1, hme1⟩ := finv_step w w1 o c p hi hw
+      obtain ⟨w', o', hf, hi', hrun, hme'⟩ := feed_invariant ops w1 _ hi1
+      refine ⟨w', o', ?_, hi', hrun, hme'.trans hme1⟩
+      simp only [hplay]
+      exact hf
+
+/-- for every observer seat (dummy included): no play accepted by the table manager is ever rejected by the
+observer, and the two stay related -/
 theorem observer_never_rejects_accepted (c : Contract) (hands : Seat → List Card) (me : Seat)
-    (w : WithHands) (o : Observed) (hd : IsDeal hands)
+    (w : WithHands) (o : Observed)
     (hw : WithHands.init c hands = some w) (ho : Observed.init c me (hands me) = some o)
     (ops : List (Card × Seat)) :
     ∃ w' o', feed w o ops = some (w', o') ∧ ObsRel w' o' ∧ w' = runFull w ops := by
-  sorry
+  obtain ⟨w', o', hf, hi', hrun, _⟩ := feed_invariant ops w o (finv_init hw ho).1
+  exact ⟨w', o', hf, hi'.rel, hrun⟩
+
+/-- for whole sequences the observer's public state (contract data, declarer, dummy, turn, trick number, leaders,
+trick history, trick counts, played cards — all fields of `PState`, cf. `related_agree`) and its own hand are
+those of the full-information game -/
+theorem feed_public_state (c : Contract) (hands : Seat → List Card) (me : Seat)
+    (w : WithHands) (o : Observed)
+    (hw : WithHands.init c hands = some w) (ho : Observed.init c me (hands me) = some o)
+    (ops : List (Card × Seat)) (w' : WithHands) (o' : Observed) (hf : feed w o ops = some (w', o')) :
+    w' = runFull w ops ∧ o'.base = w'.base ∧ o'.me = me ∧ o'.hand = w'.hands me := by
+  obtain ⟨hi, hm⟩ := finv_init hw ho
+  obtain ⟨w2, o2, hf2, hi', hrun, hme'⟩ := feed_invariant ops w o hi
+  rw [hf] at hf2
+  obtain ⟨rfl, rfl⟩ : w' = w2 ∧ o' = o2 := by simpa using hf2
+  have hme : o'.me = me := hme'.trans hm
+  exact ⟨hrun, hi'.rel.base, hme, by rw [hi'.rel.hand, hme]⟩
+
+/-! ### non-vacuity: 1♣ by North, East leads ♣2, South (dummy) plays ♣3.  West as observer is given dummy's hand
+after the lead and sees it shrink; South as observer is never given a copy and uses its own hand. -/
+def exHands : Seat → List Card
+  | .E => [⟨2, .C⟩] | .S => [⟨3, .C⟩, ⟨4, .C⟩] | _ => []
+def exContract : Contract := { finalBid := some ⟨0, by decide⟩, declarer := some .N }
+example : (feed ((WithHands.init exContract exHands).get rfl) ((Observed.init exContract .W (exHands .W)).get rfl)
+    [(⟨2, .C⟩, .E), (⟨3, .C⟩, .S)]).map (fun r => (r.2.dummyHand, r.2.hand, r.1.hands .S)) =
+    some (some [⟨4, .C⟩], [], [⟨4, .C⟩]) := by decide
+example : (feed ((WithHands.init exContract exHands).get rfl) ((Observed.init exContract .S (exHands .S)).get rfl)
+    [(⟨2, .C⟩, .E), (⟨3, .C⟩, .S)]).map (fun r => (r.2.dummyHand, r.2.hand, r.1.hands .S)) =
+    some (none, [⟨4, .C⟩], [⟨4, .C⟩]) := by decide
 
 end Bridge.C11a
